@@ -537,12 +537,14 @@ fn gen_part(rng: &mut Rng, base: u64, used: &mut BTreeSet<u64>) -> Vec<u64> {
     let n = match rng.below(6) {
         0 => 0,
         1 => rng.urange(1, 4),
+        _ if cfg!(miri) => rng.urange(5, 40),
         2 | 3 => rng.urange(5, 200),
         _ => rng.urange(200, 2500),
     };
     let kind = rng.below(7);
     let mut v: Vec<u64> = Vec::with_capacity(n);
     let start = base.saturating_add(rng.below(5000));
+    let sparse_gap = if cfg!(miri) { 300 } else { 100_000 };
     match kind {
         0 => v.extend((0..n as u64).map(|i| start.saturating_add(i))), // dense
         1 => {
@@ -570,7 +572,7 @@ fn gen_part(rng: &mut Rng, base: u64, used: &mut BTreeSet<u64>) -> Vec<u64> {
             let mut x = start;
             for _ in 0..n {
                 v.push(x);
-                x = x.saturating_add(1 + rng.below(100_000));
+                x = x.saturating_add(1 + rng.below(sparse_gap));
             }
         }
         4 => {
@@ -581,7 +583,7 @@ fn gen_part(rng: &mut Rng, base: u64, used: &mut BTreeSet<u64>) -> Vec<u64> {
         5 => {
             // unsorted sparse, wide spread
             for _ in 0..n {
-                v.push(start.saturating_add(rng.below(1 << 40)));
+                v.push(start.saturating_add(rng.below(if cfg!(miri) { 1 << 12 } else { 1 << 40 })));
             }
         }
         _ => {
@@ -854,6 +856,48 @@ fn run_exhaustive(report: &Report, sink: &Sink, st: &Stats, n_universes: u64) ->
         report.case((l.len() >= 2).then(|| hash_of(&("ex", k, l))));
     });
     done == jobs.len() as u64
+}
+
+/// Entry point of the Miri leg (/verif/san/sets/san34): a deterministic slice of the same
+/// enumeration and random generators, single threaded. Returns (cases, operations, signatures
+/// of refuting observations with their first description).
+pub fn miri_shard(seed: u64, shard: u64, nshards: u64, lists: u64, random: u64) -> (u64, u64, Vec<(String, String)>) {
+    quiet_panics();
+    std::env::set_var("VERIF_EVIDENCE_OUT", "/dev/null");
+    let args = Args { prop: "C34-miri".into(), tier: vmon::report::Tier::Quick, seed, replay: None, budget_s: None, extra: Default::default() };
+    let report = Report::new(&args, "exploration", "miri", (3600, 3600));
+    let sink = Sink::collecting();
+    let st = new_stats();
+    let mut cases = 0u64;
+    // a strided sample of the complete list enumeration (every encoding, every split, every op)
+    let mut jobs: Vec<([u64; 6], Vec<u64>)> = vec![];
+    for k in 0..8 {
+        let u = universe(seed, k);
+        for l in permutations_up_to(&u, 4) {
+            jobs.push((u, l));
+        }
+    }
+    let stride = (jobs.len() as u64 / (lists * nshards).max(1)).max(1);
+    let mut j = shard * stride / nshards.max(1) + shard;
+    let mut taken = 0;
+    while (j as usize) < jobs.len() && taken < lists {
+        let (u, l) = &jobs[j as usize];
+        exhaustive_list(&sink, &st, seed, u, l);
+        cases += 1;
+        taken += 1;
+        j += stride * nshards;
+    }
+    for r in 0..random {
+        let i = 1 + shard + nshards * r;
+        if i % 3 == 0 {
+            index_case(&report, &sink, i);
+        } else {
+            random_case(&report, &sink, &st, i);
+        }
+        cases += 1;
+    }
+    let sigs = sink.signatures_with_what();
+    (cases, st.ops.load(Ordering::Relaxed), sigs)
 }
 
 fn selftest(args: &Args) -> i32 {
